@@ -245,6 +245,35 @@ def gen_cases(rng, n, depth, entries, stable_share=0.75):
     return cases[:n]
 
 
+def gen_wide_cases(rng, n, entries):
+    """a key replaced by a union that is *wider* than the union the key sits in (Optional[A] with {A: A | B | C | D}): the
+    flattening of the nested union must keep every member; one conforming object per member"""
+    cases = []
+    while len(cases) < n:
+        a = ['cls', rng.choice(['str', 'UserA', 'bytes', 'float'])]
+        others = [['cls', c] for c in ['UserB', 'UserC', 'bool', 'int', 'complex'] if ['cls', c] != a]
+        rng.shuffle(others)
+        members = [a] + others[:rng.choice([2, 3, 3])]
+        if rng.random() < 0.3:
+            rng.shuffle(members)
+        ov = [[a, ['union', members]]]
+        root = rng.choice([['optional', a], ['union', [a, ['cls', 'NoneType']]], ['union', [['cont', 'List', ['cls', 'bytes']], a]]])
+        wrap = rng.choice([lambda x: x, lambda x: x, lambda x: ['cont', 'List', x], lambda x: ['map', 'Dict', ['cls', 'str'], x],
+                           lambda x: ['tuplefixed', [['cls', 'int'], x]]])
+        h = wrap(root)
+        hand = subst_ir(ov, h)
+        for m in members:
+            try:
+                v = IR.gen_sat(rng, wrap(m), sizes=(1, 2))     # an object of the shape of h holding instances of this member
+            except Exception:  # noqa
+                continue
+            if not IR.valid_value(v):
+                continue
+            cases.append({'hint': h, 'value': v, 'draws': sorted({0, 1, rng.getrandbits(32)}), 'is_random': rng.random() < 0.8,
+                          'entries': list(entries), 'conf': {'tower': False, 'ov': ov}, 'stable': True, 'hand_hint': hand})
+    return cases[:n]
+
+
 VIOLATION_SETTINGS = [
     {'violation_type': 'UserViolation'},
     {'violation_door_type': 'UserViolation', 'violation_param_type': 'UserParamViolation'},
@@ -292,6 +321,7 @@ def run(ctx):
         ctx.extra['conf_attributes_read_by_codegen'] = sorted({a for a, _ in reads})
         n = {'quick': 420, 'thorough': 12000}[ctx.tier]
         cases = gen_cases(ctx.rng, n, 4, ('is_bearable', 'die_if_unbearable', 'param'))
+        cases += gen_wide_cases(ctx.rng, max(60, n // 8), ('is_bearable', 'die_if_unbearable', 'param'))
 
         def gen(rng, k, depth, entries=None):
             return cases
